@@ -89,7 +89,9 @@ def slotted(  # noqa: C901
 
             cls_dict = {**cls.__dict__}
             # Create only missing slots
-            inherited_slots = set().union(*(getattr(c, "__slots__", ()) for c in cls.mro()))
+            inherited_slots = set().union(
+                *(getattr(c, "__slots__", ()) for c in cls.mro()[1:])
+            )
 
             field_names = {f.name: ... for f in dataclasses.fields(cls) if f.name}
             # (A base without `__slots__` already gives its instances both: asking again is an error.)
